@@ -81,8 +81,8 @@ class BaseLoss(ABC):
     def _filter_data(
         filters: Sequence[Callable | None],
         sim_data_ensemble: NDArray[np.float64],
-    ) -> NDArray[np.float64]:
-        """Filter the simulated time series."""
+    ) -> list[NDArray[np.float64]]:
+        """Filter the simulated time series, one array of shape (ensemble_size, N) per coordinate."""
         filtered_data = []
 
         for i, filter_ in enumerate(filters):
@@ -97,7 +97,9 @@ class BaseLoss(ABC):
                 )
             filtered_data.append(filtered_data_1d)
 
-        return np.array(filtered_data)
+        # the coordinates are kept apart: stacking them into one array would let the filter of one
+        # coordinate change the dtype of the others
+        return filtered_data
 
     def _check_coordinate_weights(self, num_coords: int) -> NDArray[np.float64]:
         """Check self.coordinate_weights and return usable weights."""
